@@ -61,7 +61,7 @@ PROPS = {
         "oracle_engine": {"clientcache": "sc"},
         "trusted": ["time is a parameter of the model"],
         "technique": "Lean 4 theorems (command-map key injectivity for all strings (prefix-code argument over the comma escaping), MapCommand touches exactly one route, resume only via the routed triple, drop on failure, invalidate/expire remove routes) + correspondence of real client handshakes over (tag, server, command) histories against model and an independent reference map",
-        "level_text": "routes_lead_home + resume_only_same_triple (invariant over ALL histories of client operations, the server choosing the session identifier in every full handshake: a route leads only to sessions of its own tag and server for a command the server declared, and a resumption by route returns such a session's key and identity; legacy_store_breaks_routes is the history that broke it before fix 59f34db), key_injective (for ALL tags, addresses and commands: commas inside a part are escaped; comma_triples_distinct is the pair that collided before the fix), mapCommand_route, resume_only_routed, explicit_id_plants_no_route (a handshake that names a cached session by id never adds a command-map binding), drop_on_failure, next_is_full, invalidate_removes_routes, expire_removes_routes, WF preservation: kernel-checked. Tied to the code by the clientcache engine: histories of real ClientHandshake calls over 4 tags x 5 addresses x 3 commands with server restarts, broken connections, expiry, invalidation; all 60 routes compared after every step with the model and with a reference map kept by the spec rules. The RAW command map (VerifCommandMap) is compared with the model after every step and histories contain expire -> by-id lookup (entry dropped, mappings left) -> sweep / Invalidate: invalidate_leaves_no_route, sweep_leaves_no_dangling_route, sweep_routes_live (legacy_invalidate_leaves_route: the witness before fix 93a7a4b).",
+        "level_text": "routes_lead_home + resume_only_same_triple (invariant over ALL histories of client operations, the server choosing the session identifier in every full handshake: a route leads only to sessions of its own tag and server for a command the server declared, and a resumption by route returns such a session's key and identity; legacy_store_breaks_routes is the history that broke it before fix 59f34db), key_injective (for ALL tags, addresses and commands: commas inside a part are escaped; comma_triples_distinct is the pair that collided before the fix), mapCommand_route, resume_only_routed, explicit_id_plants_no_route (a handshake that names a cached session by id never adds a command-map binding), drop_on_failure, next_is_full, invalidate_removes_routes, expire_removes_routes, WF preservation: kernel-checked. Tied to the code by the clientcache engine: histories of real ClientHandshake calls over 4 tags x 5 addresses x 3 commands with server restarts, broken connections, expiry, invalidation; all 60 routes compared after every step with the model and with a reference map kept by the spec rules. The RAW command map (VerifCommandMap) is compared with the model after every step and histories contain expire -> by-id lookup (entry dropped, mappings left) -> sweep / Invalidate: invalidate_leaves_no_route, sweep_leaves_no_dangling_route, sweep_routes_live (legacy_invalidate_leaves_route: the witness before fix 94c25e6).",
         "level_note": "No assumption on the characters of tags, addresses or commands remains (the comma collision found by the theorem was confirmed on the real cache and repaired).",
         "assumptions": [],
     },
